@@ -749,7 +749,43 @@ func (c *Ctx) linear(like *Term, parts []*Term, coefs []uint64) *Term {
 	for i, p := range parts {
 		c.linOf(p, coefs[i], l, 0)
 	}
+	if len(l.atoms) > 10 {
+		// long running sums: flattening would destroy sharing (sum_i re-listing all of
+		// sum_{i-1}); keep the binary node
+		return c.rawLinear(like, parts, coefs)
+	}
 	return c.rebuild(like, l)
+}
+
+func (c *Ctx) rawLinear(like *Term, parts []*Term, coefs []uint64) *Term {
+	m := uint64(math.MaxUint64)
+	if like.Sort == SBV {
+		m = mask(like.W)
+	}
+	var res *Term
+	for i, p := range parts {
+		k := coefs[i] & m
+		var t *Term
+		switch {
+		case k == 1:
+			t = p
+		case k == m:
+			if res == nil {
+				t = c.mk(&Term{Op: ONeg, Sort: like.Sort, W: like.W, Args: []*Term{p}})
+			} else {
+				res = c.mk(&Term{Op: OSub, Sort: like.Sort, W: like.W, Args: []*Term{res, p}})
+				continue
+			}
+		default:
+			t = c.mkMul(c.constOf(like, k), p)
+		}
+		if res == nil {
+			res = t
+		} else {
+			res = c.mk(&Term{Op: OAdd, Sort: like.Sort, W: like.W, Args: []*Term{res, t}})
+		}
+	}
+	return res
 }
 
 func (c *Ctx) Add(a, b *Term) *Term {
